@@ -5,6 +5,7 @@ For the table writers the Lean side returns the TOKENS the generated writer emit
 them with Python's own `%` / `str.format` and compares the text byte for byte with what the real writer wrote for the same potentials and grid.  Potentials
 are tracer callables on dyadic grids, so every abscissa and value is exact.  A disagreement is a broken TRANSLATOR tie (the theorems about the generated
 definitions would then be about something the code does not do); it is never by itself a property violation."""
+import configparser
 import io
 import json
 import os
@@ -1276,8 +1277,20 @@ def validate_raw_parser(run, files, n=60):
         raw = ConfigParser(io.StringIO(text)).raw_config_parser
         real_has = [bool(raw.has_option(s, k)) for s, k in qs]
         real_x = [raw.optionxform(k) for s, k in qs]
+        real_opts = []
+        for s, k in qs:
+            try:
+                real_opts.append(list(raw.options(s)))
+            except configparser.NoSectionError:
+                real_opts.append("noSection")
         run.traces += 1
         run.dist["translator-validation/raw_has_option"] += 1
+        run.dist["translator-validation/raw_options/%s" % ("some-absent" if "noSection" in real_opts else "all-present")] += 1
+        if a.get("options") != real_opts:
+            bad += 1
+            if bad <= 2:
+                do = [(q[0], r_, g_) for q, r_, g_ in zip(qs, real_opts, a.get("options") or []) if r_ != g_][:3]
+                run.tie_broken("translator", "generated _RawConfigParser.options vs the real parser", "file %r: options differs on %s" % (text[:300], do))
         if a.get("has") != real_has or a.get("xform") != real_x:
             bad += 1
             if bad <= 2:
